@@ -234,7 +234,7 @@ func (b *builder) randomMsg() script.CMsg {
 	return script.CMsg{K: "H"}
 }
 
-var batchKinds = []string{"copy-in-batch", "clean", "clean", "parse-error", "bind-unknown", "describeS-unknown", "describeP-unknown", "execute-unknown", "execute-fails-before-rows", "execute-fails-after-rows", "execute-panics", "failing-query-in-open-batch", "bind-with-odd-format-count", "random", "random", "simple-query", "unknown-type", "close-then-use"}
+var batchKinds = []string{"copy-in-batch", "clean", "clean", "parse-error", "bind-unknown", "describeS-unknown", "describeP-unknown", "execute-unknown", "execute-fails-before-rows", "execute-fails-after-rows", "execute-panics", "failing-query-in-open-batch", "random", "random", "simple-query", "unknown-type", "close-then-use"}
 
 func genCase(t *rapid.T) Case {
 	c := Case{}
